@@ -941,6 +941,15 @@ class Tensor:
             # a constant tensor never has a gradient, even if it views a non-constant tensor
             return None
 
+        return self._grad_as_view()
+
+    def _grad_as_view(self) -> Optional[np.ndarray]:
+        """The base's gradient seen through this view, whatever this tensor's own
+        constant flag (a non-constant view reached through a constant view still
+        reads its gradient from the base)."""
+        if self._base is None:
+            return self._grad
+
         if self._view_grad is not None and self._view_grad.base is self._base._grad:
             # view grad has been computed already
             return self._view_grad
@@ -953,7 +962,7 @@ class Tensor:
         (view_parent,) = self._creator.variables
 
         # recursively fetches grad from parent
-        grad = view_parent.grad
+        grad = view_parent._grad_as_view()
         with _track.no_autodiff:
             self._view_grad = self._replay_op(grad).data if grad is not None else None
         return self._view_grad
@@ -1539,7 +1548,7 @@ class Tensor:
             # "pull" on grad to force views to update their
             # gradients from upstream before the graph info
             # gets cleared
-            _ = self.grad
+            _ = self._grad_as_view()
 
         self._view_children.clear()
         self._ops.clear()
